@@ -213,7 +213,10 @@ func (w *c16World) probe(i int, failing string) (string, string) {
 	return want, got
 }
 
-func c16Scenario(depth, k, p int) mc.Scenario {
+func c16Scenario(depth, k, p int) mc.Scenario { return c16ScenarioFiltered(depth, k, p, nil) }
+
+// c16ScenarioFiltered: the same histories over a sub-alphabet of operations (keep == nil: all of them).
+func c16ScenarioFiltered(depth, k, p int, keep func(op string) bool) mc.Scenario {
 	return func(x *mc.X) *mc.Outcome {
 		zh.Reset()
 		zh.Install(x, zh.PoolLIFO, zh.OrderSorted)
@@ -547,6 +550,15 @@ func c16Scenario(depth, k, p int) mc.Scenario {
 				s.PostTransform(w.mkPost(id))
 				m.posts = append(m.posts, id)
 			}})
+			if keep != nil {
+				var kept []op
+				for _, o := range ops {
+					if keep(o.name) {
+						kept = append(kept, o)
+					}
+				}
+				ops = kept
+			}
 			oi := x.Choose(len(ops), "op")
 			hist = append(hist, fmt.Sprintf("#%d.%s", i, ops[oi].name))
 			if msg := func() (msg string) {
@@ -611,6 +623,19 @@ func init() {
 				for p := 0; p < 3; p++ {
 					items = append(items, Item{Name: fmt.Sprintf("histories/base-tests=%d,posts=%d", k, p), MaxDevs: -1, Run: c16Scenario(c16Depth(tier), k, p)})
 				}
+			}
+			// longer histories (5 events) over the operations that only derive and append: Pick / Omit / Extend that change
+			// nothing, then Test / TestFunc / PostTransform on any live schema — bases with 3 tests and 3 transforms
+			// (slices with spare capacity)
+			if tier != "thorough" {
+				appendOnly := func(op string) bool {
+					switch op {
+					case "Pick(a,b,c)", "Omit()", "Extend({})", "Test(pass)", "TestFunc(fail)", "PostTransform":
+						return true
+					}
+					return false
+				}
+				items = append(items, Item{Name: "histories/append-only/base-tests=3,posts=3", MaxDevs: -1, Run: c16ScenarioFiltered(5, 3, 3, appendOnly)})
 			}
 			items = append(items, Item{Name: "records-through-tagged-front-ends", MaxDevs: -1, Run: c16RecordsScenario})
 			return items
